@@ -125,28 +125,41 @@ def _verdict(messages):
 
 
 def _excluding_wrapper(module, fn, exclusions, label):
-    """known-finding regions are excluded by a generated wrapper harness (CrossHair reads contracts from source files):
-    same signature, returns True inside an excluded region, otherwise calls the real harness"""
+    """known-finding regions are excluded by a generated copy of the harness function (CrossHair reads contracts from
+    source files, so a precondition cannot be injected at run time): the current source of the harness with
+    `if <region>: return True` inserted as its first statement, compiled from a file under build/wrappers in a
+    namespace that shares the harness module's globals.
+
+    The copy does NOT call the original harness.  A first version did (`return _m.harness(args)`), and every such
+    re-run came back CONFIRMED: the callee carries the contract `post: _`, CrossHair enforces the contracts of called
+    functions and drops a path on which a *callee's* postcondition fails - the caller is not to blame - so exactly the
+    violating paths vanished."""
+    import ast  # pylint: disable=import-outside-toplevel
     import hashlib  # pylint: disable=import-outside-toplevel
     import importlib.util  # pylint: disable=import-outside-toplevel
+    import textwrap  # pylint: disable=import-outside-toplevel
     verif = os.path.dirname(os.path.dirname(os.path.abspath(__file__)))
     directory = os.path.join(verif, 'build', 'wrappers')
     os.makedirs(directory, exist_ok=True)
-    sig = inspect.signature(fn)
-    params = ', '.join('%s: %s' % (name, getattr(par.annotation, '__name__', None) if not str(par.annotation).startswith(
-        'typing.') else str(par.annotation)) for name, par in sig.parameters.items())
-    call = ', '.join(sig.parameters)
     conditions = ' or '.join('(%s)' % expr[len('not ('):-1] if expr.startswith('not (') else '(not (%s))' % expr
                              for expr in exclusions)
-    name = 'w_' + hashlib.sha1((module.__name__ + fn.__name__ + label).encode()).hexdigest()[:12]
+    tree = ast.parse(textwrap.dedent(inspect.getsource(fn)))
+    fdef = tree.body[0]
+    fdef.decorator_list = []
+    guard = ast.parse('if %s:\n    return True' % conditions).body[0]
+    has_doc = (fdef.body and isinstance(fdef.body[0], ast.Expr) and isinstance(getattr(fdef.body[0], 'value', None),
+                                                                               ast.Constant))
+    fdef.body.insert(1 if has_doc else 0, guard)
+    source = ast.unparse(ast.fix_missing_locations(tree)) + '\n'
+    name = 'w_' + hashlib.sha1((module.__name__ + fn.__name__ + label + source).encode()).hexdigest()[:12]
     path = os.path.join(directory, name + '.py')
-    source = ('import typing\nimport %s as _m\n\n\ndef %s(%s) -> bool:\n    """\n    post: _\n    """\n'
-              '    P = _m.P\n    if %s:\n        return True\n    return _m.%s(%s)\n') % (
-                  module.__name__, fn.__name__, params, conditions, fn.__name__, call)
     with open(path, 'w') as handle:
         handle.write(source)
     spec = importlib.util.spec_from_file_location(name, path)
     wrapper_module = importlib.util.module_from_spec(spec)
+    for key, value in vars(module).items():
+        if not key.startswith('__'):
+            wrapper_module.__dict__[key] = value
     sys.modules[name] = wrapper_module
     spec.loader.exec_module(wrapper_module)
     return getattr(wrapper_module, fn.__name__)
